@@ -2,9 +2,10 @@
 //!
 //! Case = (random schema, one near-valid document = a valid document with 0–2 mutations, one later
 //! valid document, storage backend).  The real `IndexWriter::add_document` / `commit` are run:
-//!   * correspondence: `add_document` result vs `SL.Doc.validateAdd`, and — when accepted — the
+//!   * correspondence: `Schema::validate_document` vs `SL.Doc.validateDoc`, `add_document` result vs
+//!     `SL.Doc.validateAdd`, and — when accepted — the
 //!     `commit` result vs `SL.Doc.collectOk` (same definitions the theorems of `Props/C15` are
-//!     about; the code after the repairs 37df93e/919e2f9/6d0f8bf); the Lean predicate `conforms`
+//!     about; the code after the repairs 37df93e/919e2f9/6d0f8bf/8c4f4e4); the Lean predicate `conforms`
 //!     vs the harness's own schema oracle;
 //!   * finder (implementation alone): (F1) accepted ⇒ `commit` succeeds, and after a failed commit
 //!     a *later* valid document must be committable through a new writer; (F2) a document that
@@ -903,6 +904,15 @@ impl Prop for C15 {
       s.disagree("driver", case, observed.clone(), m.clone());
       return;
     }
+    // the public `Schema::validate_document` on its own (the theorems `validated_collects` /
+    // `validated_conforms` are about it; commit calls it again for every document)
+    let real_valid = idx::schema(schema_json).ok().map(|sc| crate::util::guarded(|| sc.validate_document(&idx::doc(&doc)).is_ok()).unwrap_or(false));
+    if let Some(v) = real_valid {
+      s.count(if v { "validate_document:ok" } else { "validate_document:err" });
+      if m["valid"].as_bool() != Some(v) {
+        s.disagree("validateDoc", case, json!({"validate_document": v, "observed": observed}), m.clone());
+      }
+    }
     if m["add"].as_bool() != Some(obs.add.is_ok()) {
       s.disagree("validateAdd", case, observed.clone(), m.clone());
     }
@@ -919,14 +929,17 @@ impl Prop for C15 {
     }
     // instances of the theorems (model vs model): must never fail
     let b = |k: &str| m[k].as_bool().unwrap_or(false);
-    if b("add") && !b("collects") {
-      s.disagree("theorem-instance accepted_collects", case, observed.clone(), m.clone());
+    if b("valid") && !b("collects") {
+      s.disagree("theorem-instance validated_collects", case, observed.clone(), m.clone());
     }
-    if b("add") && b("within_cap") && !b("commit") {
-      s.disagree("theorem-instance accepted_commits_partial", case, observed.clone(), m.clone());
+    if b("add") != b("commit") {
+      s.disagree("theorem-instance accepted_iff_commits", case, observed.clone(), m.clone());
     }
-    if b("add") != b("conforms") {
+    if b("add") != (b("conforms") && b("within_cap")) {
       s.disagree("theorem-instance accepted_iff_conforms", case, observed.clone(), m.clone());
+    }
+    if b("valid") && !b("add") {
+      s.count("model:rejected-by-ensure_storable");
     }
     // what the validation before the repairs would have said (documentation of the fixed defects)
     if b("legacy_add") && !b("add") {
